@@ -4,6 +4,7 @@
    GenProps/C17Src*.lean prove every definition equal to the Core definition the C17 theorems are about. -/
 import MenpoModel.Core.C17Np
 import MenpoModel.Core.C17Heap
+import MenpoModel.Core.PyLoop
 
 set_option linter.unusedVariables false
 
